@@ -28,7 +28,7 @@ import (
 
 // ---------------------------------------------------------------- streams
 
-// srStream builds metadata + nchunks chunks of nsamples samples each (two int64 metrics)
+// srStream builds metadata + nchunks chunks of nsamples samples each (three int64 metrics)
 func srStream(nchunks, nsamples int) []byte {
 	w := &logWriter{}
 	c := newCollector("sdyn", nsamples, w)
@@ -39,7 +39,13 @@ func srStream(nchunks, nsamples int) []byte {
 			_ = c.Add(encDoc([]elem{{"s", &val{T: 0x02, B: []byte("no metrics here")}}}))
 			continue
 		}
-		_ = c.Add(encDoc([]elem{{"a", &val{T: 0x12, I: int64(i)}}, {"b", &val{T: 0x12, I: int64(i * i % 7)}}}))
+		// the last metric repeats its value in the last sample of every chunk: the payload ends in a zero run of length
+		// one (a zero delta followed by the run count 0, the payload's very last byte)
+		cv := i % nsamples
+		if cv == nsamples-1 && cv > 0 {
+			cv--
+		}
+		_ = c.Add(encDoc([]elem{{"a", &val{T: 0x12, I: int64(i)}}, {"b", &val{T: 0x12, I: int64(i * i % 7)}}, {"c", &val{T: 0x12, I: int64(cv)}}}))
 	}
 	_ = flushColl(c, w)
 	out := []byte{}
@@ -176,6 +182,13 @@ func srCases(nchunks, nsamples int) []srCase {
 			return p[:len(p)/2]
 		},
 	}
+	// a payload that ends in a zero run: the run count, its very last byte, is missing
+	cuts = append(cuts, func(p []byte) []byte {
+		if len(p) >= 2 && p[len(p)-2] == 0 && p[len(p)-1] < 0x80 {
+			return p[:len(p)-1]
+		}
+		return p[:len(p)/2]
+	})
 	// and a payload that is complete but declares one metric more than its reference document has
 	cuts = append(cuts, func(p []byte) []byte {
 		m := append([]byte{}, p...)
@@ -189,7 +202,7 @@ func srCases(nchunks, nsamples int) []srCase {
 	})
 	for k := 0; k < nchunks; k++ {
 		for v, cut := range cuts {
-			if v != k%len(cuts) && v != (k+3)%len(cuts) && !(k == 0 && nchunks <= 2) {
+			if v != k%len(cuts) && v != (k+2)%len(cuts) && v != (k+4)%len(cuts) && !(k == 0 && nchunks <= 2) {
 				continue
 			}
 			bad := withPayload(base, k, cut)
